@@ -10,7 +10,7 @@ for d in seeded/${1:-*}/; do
 import json,sys
 i=sys.argv[1]
 old=json.load(open(f'/tmp/meta_{i}.json')); new=json.load(open(f'/verif/seeded/{i}/meta.json'))
-for k in ('breaks','needs_to_manifest','detected_by_checks_as_first_built','source','note','strengthening'):
+for k in ('breaks','needs_to_manifest','detected_by_checks_as_first_built','source','note','strengthening','first_verdict_exit'):
     if k in old: new[k]=old[k]
 json.dump(new,open(f'/verif/seeded/{i}/meta.json','w'),indent=1)
 PY
